@@ -104,7 +104,7 @@ var (
 	reClause    = regexp.MustCompile(`^(requires|ensures|assert|assume)\s+(\w+)\s*(\[([^\]]*)\])?\s*:\s*(.*)$`)
 	reLoopInv   = regexp.MustCompile(`^loop\s+(\d+)\s+invariant\s+(\w+)\s*(\[([^\]]*)\])?\s*:\s*(.*)$`)
 	reLoopMod   = regexp.MustCompile(`^loop\s+(\d+)\s+modifies\s+(.*)$`)
-	reAt        = regexp.MustCompile(`^at\s+(call|send|recv)\s+(\S+?)(\(([^)]*)\))?\s*(\(([^)]*)\))?\s*(when\s+(.*?))?\s*:\s*(.*)$`)
+	reAt        = regexp.MustCompile(`^at\s+(call|send|trysend|recv|close|loopenter|return)\s+(\S+?)(\(([^)]*)\))?\s*(\(([^)]*)\))?\s*(when\s+(.*?))?\s*:\s*(.*)$`)
 	reMacro     = regexp.MustCompile(`^macro\s+(\w+)\(([^)]*)\)\s*=\s*(.*)$`)
 	reLemma     = regexp.MustCompile(`^lemma\s+(\w+)\s*(\[([^\]]*)\])?\s*:\s*(.*)$`)
 	reGhost     = regexp.MustCompile(`^ghost\s+var\s+(\w+)\s+(.+?)(\s*=\s*(.*))?$`)
